@@ -716,6 +716,32 @@ func init() {
 			}
 		}
 		exc := pick(tblExceptions)
+		// the spellings as LIST ENTRIES right after a call that saw the same entry with its suffix in another letter case (which
+		// is invalid: suffixes are case-sensitive) — a memo of parsed entries keyed by the folded text confuses the two
+		for i := 0; i < scale(40, 300); i++ {
+			id := strings.TrimSuffix(pick(tblActive), "+")
+			if strings.HasSuffix(id, "-only") || strings.HasSuffix(id, "-or-later") {
+				continue
+			}
+			implVal([]string{id + "-OR-LATER"})
+			implVal([]string{strings.ToUpper(id) + "-Only", id + "-ONLY"})
+			implSat("MIT", []string{id + "-Or-Later"})
+			for _, pr := range [][2]string{{id + "-or-later", id + "+"}, {id + "-only", id}} {
+				if !implValid(pr[1]) {
+					continue
+				}
+				res.Evaluations++
+				count("after_other_case_suffix")
+				if v := implVal([]string{pr[0]}); !v.ok {
+					fail(failure{Stream: "oracle", What: "a documented spelling is rejected as a list entry after the same text with the suffix in another letter case was seen", Case: &kase{Expr: pr[0], ExprHex: hx(pr[0]), Extra: map[string]string{"history": id + "-OR-LATER / -Only validated first"}}, Impl: "invalid", Expected: "valid"})
+					continue
+				}
+				r1, r2 := implSat(id, []string{pr[0]}), implSat(id, []string{pr[1]})
+				if r1.String() != r2.String() {
+					fail(failure{Stream: "oracle", What: "the allowed entries " + show(pr[0]) + " and " + show(pr[1]) + " give different results (after the same text with the suffix in another letter case was seen)", Case: &kase{Expr: id, ExprHex: hx(id), Allowed: []string{pr[0]}, Extra: map[string]string{"other_list": hxl([]string{pr[1]}), "other_expr": id}}, Impl: r1.String(), Expected: r2.String()})
+				}
+			}
+		}
 		// bases of listed `X-or-later` / `X-only` ids that are not ids themselves: `X` alone is invalid, `X+` is valid and
 		// must stay so whatever was asked before (and equal `X-or-later`)
 		for _, id := range tblActive {
